@@ -14,42 +14,47 @@ variable {c : Cfg} {P : LProg} {ctx : Ctx}
 /-! ### lists -/
 
 theorem simL_nil : SimL c P ctx [] [] := by
-  intro k st scs σ r σ' hcode hsc hev
+  intro k st scs σ r σ' hcode hsc hev hB
   rw [evalList_nil, SM.pure_apply] at hev
   obtain ⟨rfl, rfl⟩ := Prod.mk.inj hev
   exact (Reach.refl _ |>.to_ip (by ip_arith))
 
 theorem simL_cons {n : Node} {ns : List Node} {c1 c2 : List LInstr} (hp : isPair n = false)
     (hn : Sim c P ctx n c1) (hns : SimL c P ctx ns c2) : SimL c P ctx (n :: ns) (c1 ++ c2) := by
-  intro k st scs σ r σ' hcode hsc hev
+  intro k st scs σ r σ' hcode hsc hev hB
   rw [evalList_cons _ _ _ _ hp] at hev
+  rw [evalListLoc_cons _ _ _ _ hp] at hB
   rcases SM.bind_cases hev with ⟨e, hne, rfl⟩ | ⟨v, σ1, hnv, hrest⟩
-  · exact hn k st scs σ _ _ hcode.left hsc hne
-  · refine Reach.runs (hn k st scs σ _ _ hcode.left hsc hnv) ?_
+  · exact hn k st scs σ _ _ hcode.left hsc hne hB.left
+  · refine Reach.runs (hn k st scs σ _ _ hcode.left hsc hnv hB.left) ?_
+    have hB1 := hB.right (evalLoc_of_ok hnv)
     rcases SM.bind_cases hrest with ⟨e, hre, rfl⟩ | ⟨vs, σ2, hrv, hrest2⟩
-    · exact hns _ _ scs σ1 _ _ hcode.right hsc hre
+    · exact hns _ _ scs σ1 _ _ hcode.right hsc hre hB1.left
     · rw [SM.pure_apply] at hrest2
       obtain ⟨rfl, rfl⟩ := Prod.mk.inj hrest2
-      have := hns _ (v :: st) scs σ1 _ _ hcode.right hsc hrv
+      have := hns _ (v :: st) scs σ1 _ _ hcode.right hsc hrv hB1.left
       simp only [outcomeL_ok, Runs_ok, List.reverse_cons, List.append_assoc, List.singleton_append] at this ⊢
       exact this.to_ip (by ip_arith)
 
 theorem simL_pair {m : Meta} {kn vn : Node} {ns : List Node} {ck cv c2 : List LInstr}
     (hk : Sim c P ctx kn ck) (hv : Sim c P ctx vn cv) (hns : SimL c P ctx ns c2) :
     SimL c P ctx (.pair m kn vn :: ns) ((ck ++ cv) ++ c2) := by
-  intro k st scs σ r σ' hcode hsc hev
+  intro k st scs σ r σ' hcode hsc hev hB
   rw [evalList_pair] at hev
+  rw [evalListLoc_pair] at hB
   rcases SM.bind_cases hev with ⟨e, hke, rfl⟩ | ⟨kv, σ1, hkv, hrest⟩
-  · exact hk k st scs σ _ _ hcode.left.left hsc hke
-  · refine Reach.runs (hk k st scs σ _ _ hcode.left.left hsc hkv) ?_
+  · exact hk k st scs σ _ _ hcode.left.left hsc hke hB.left
+  · refine Reach.runs (hk k st scs σ _ _ hcode.left.left hsc hkv hB.left) ?_
+    have hB1 := hB.right (evalLoc_of_ok hkv)
     rcases SM.bind_cases hrest with ⟨e, hve, rfl⟩ | ⟨vv, σ2, hvv, hrest2⟩
-    · exact hv _ _ scs σ1 _ _ hcode.left.right hsc hve
-    · refine Reach.runs (hv _ _ scs σ1 _ _ hcode.left.right hsc hvv) ?_
+    · exact hv _ _ scs σ1 _ _ hcode.left.right hsc hve hB1.left
+    · refine Reach.runs (hv _ _ scs σ1 _ _ hcode.left.right hsc hvv hB1.left) ?_
+      have hB2 := hB1.right (evalLoc_of_ok hvv)
       rcases SM.bind_cases hrest2 with ⟨e, hre, rfl⟩ | ⟨vs, σ3, hrv, hrest3⟩
-      · exact hns (k + lsize ck + lsize cv) _ scs σ2 _ _ (hcode.right.cast (by ip_arith)) hsc hre
+      · exact hns (k + lsize ck + lsize cv) _ scs σ2 _ _ (hcode.right.cast (by ip_arith)) hsc hre hB2.left
       · rw [SM.pure_apply] at hrest3
         obtain ⟨rfl, rfl⟩ := Prod.mk.inj hrest3
-        have := hns (k + lsize ck + lsize cv) (vv :: kv :: st) scs σ2 _ _ (hcode.right.cast (by ip_arith)) hsc hrv
+        have := hns (k + lsize ck + lsize cv) (vv :: kv :: st) scs σ2 _ _ (hcode.right.cast (by ip_arith)) hsc hrv hB2.left
         simp only [outcomeL_ok, Runs_ok, List.reverse_cons, List.append_assoc, List.singleton_append] at this ⊢
         exact this.to_ip (by ip_arith)
 
@@ -107,15 +112,15 @@ theorem call_tail (r : R Val) (name : String) (vs : List Val) (σ : SState) :
   cases callHappened r <;> cases r <;> rfl
 
 theorem sim_func {m : Meta} {name : String} {args : List Node} {fast : Bool} {ca : List LInstr} {kk : Nat}
-    (hargs : SimL c P ctx args ca) (hnp : NoPairs args) (hk : P.consts[kk]? = some (.call name args.length))
-    (hbl : BlameOK c P (.func m name args fast)) :
+    (hargs : SimL c P ctx args ca) (hnp : NoPairs args) (hk : P.consts[kk]? = some (.call name args.length)) :
     Sim c P ctx (.func m name args fast) (ca ++ [li m.loc (if fast then .callFast else .call) kk]) := by
-  intro k st scs σ res σ' hcode hsc hev
-  have hev0 := hev
+  intro k st scs σ res σ' hcode hsc hev hB
   rw [eval_func] at hev
+  rw [evalLoc_func] at hB
   rcases SM.bind_cases hev with ⟨e, hae, rfl⟩ | ⟨vs, σ1, hav, hrest⟩
-  · exact hargs k st scs σ _ _ hcode.left hsc hae
-  · refine Reach.runs (hargs k st scs σ _ _ hcode.left hsc hav) ?_
+  · exact hargs k st scs σ _ _ hcode.left hsc hae hB.left
+  · refine Reach.runs (hargs k st scs σ _ _ hcode.left hsc hav hB.left) ?_
+    have hb := (hB.right (evalListLoc_of_ok hav)).raised hrest
     have hlen := evalList_length _ args hnp _ _ _ hav
     replace hrest : ((do if callHappened (callMember c.world c.env name vs) then SM.logCall name vs
                          SM.lift (callMember c.world c.env name vs)) : SM Val) σ1 = (res, σ') := hrest
@@ -123,8 +128,8 @@ theorem sim_func {m : Meta} {name : String} {args : List Node} {fast : Bool} {ca
     obtain ⟨rfl, rfl⟩ := Prod.mk.inj hrest
     rw [← hlen] at hk
     cases fast
-    · exact (Runs.call (.inl rfl) hcode.right hk (hbl.of hev0)).to_ip (by ip_arith)
-    · exact (Runs.call (.inr rfl) hcode.right hk (hbl.of hev0)).to_ip (by ip_arith)
+    · exact (Runs.call (.inl rfl) hcode.right hk hb).to_ip (by ip_arith)
+    · exact (Runs.call (.inr rfl) hcode.right hk hb).to_ip (by ip_arith)
 
 theorem method_tail (w : World) (ns : Bool) (obj : Val) (name : String) (vs : List Val) (σ : SState) :
     ((if ns && obj.isNilLike then pure .nil
@@ -139,18 +144,20 @@ theorem method_tail (w : World) (ns : Bool) (obj : Val) (name : String) (vs : Li
 
 theorem sim_method {m : Meta} {x : Node} {name : String} {args : List Node} {nilsafe : Bool} {cx ca : List LInstr}
     {kk : Nat} (hx : Sim c P ctx x cx) (hargs : SimL c P ctx args ca) (hnp : NoPairs args)
-    (hk : P.consts[kk]? = some (.call name args.length)) (hbl : BlameOK c P (.method m x name args nilsafe)) :
+    (hk : P.consts[kk]? = some (.call name args.length)) :
     Sim c P ctx (.method m x name args nilsafe)
       (cx ++ ca ++ [li m.loc (if nilsafe then .methodNilSafe else .method) kk]) := by
-  intro k st scs σ res σ' hcode hsc hev
-  have hev0 := hev
+  intro k st scs σ res σ' hcode hsc hev hB
   rw [eval_method] at hev
+  rw [evalLoc_method] at hB
   rcases SM.bind_cases hev with ⟨e, hxe, rfl⟩ | ⟨obj, σ1, hxv, hrest⟩
-  · exact hx k st scs σ _ _ hcode.left.left hsc hxe
-  · refine Reach.runs (hx k st scs σ _ _ hcode.left.left hsc hxv) ?_
+  · exact hx k st scs σ _ _ hcode.left.left hsc hxe hB.left
+  · refine Reach.runs (hx k st scs σ _ _ hcode.left.left hsc hxv hB.left) ?_
+    have hB1 := hB.right (evalLoc_of_ok hxv)
     rcases SM.bind_cases hrest with ⟨e, hae, rfl⟩ | ⟨vs, σ2, hav, hrest2⟩
-    · exact hargs _ _ scs σ1 _ _ hcode.left.right hsc hae
-    · refine Reach.runs (hargs _ _ scs σ1 _ _ hcode.left.right hsc hav) ?_
+    · exact hargs _ _ scs σ1 _ _ hcode.left.right hsc hae hB1.left
+    · refine Reach.runs (hargs _ _ scs σ1 _ _ hcode.left.right hsc hav hB1.left) ?_
+      have hb := (hB1.right (evalListLoc_of_ok hav)).raised hrest2
       have hlen := evalList_length _ args hnp _ _ _ hav
       replace hrest2 : ((if nilsafe && obj.isNilLike then pure .nil
         else do
@@ -160,8 +167,8 @@ theorem sim_method {m : Meta} {x : Node} {name : String} {args : List Node} {nil
       obtain ⟨rfl, rfl⟩ := Prod.mk.inj hrest2
       rw [← hlen] at hk
       cases nilsafe
-      · exact (Runs.method (.inl ⟨rfl, rfl⟩) (hcode.right.cast (by ip_arith)) hk (hbl.of hev0)).to_ip (by ip_arith)
-      · exact (Runs.method (.inr ⟨rfl, rfl⟩) (hcode.right.cast (by ip_arith)) hk (hbl.of hev0)).to_ip (by ip_arith)
+      · exact (Runs.method (.inl ⟨rfl, rfl⟩) (hcode.right.cast (by ip_arith)) hk hb).to_ip (by ip_arith)
+      · exact (Runs.method (.inr ⟨rfl, rfl⟩) (hcode.right.cast (by ip_arith)) hk hb).to_ip (by ip_arith)
 
 /-! ### array and map literals -/
 
@@ -176,15 +183,15 @@ theorem alloc_tail (lim : Int) (n : Nat) (v : Val) (σ : SState) :
   · simp only [hb, ↓reduceIte]; rfl
 
 theorem sim_array {m : Meta} {xs : List Node} {cx : List LInstr} {kk : Nat}
-    (hxs : SimL c P ctx xs cx) (hnp : NoPairs xs) (hk : P.consts[kk]? = some (.int .int xs.length))
-    (hbl : BlameOK c P (.array m xs)) :
+    (hxs : SimL c P ctx xs cx) (hnp : NoPairs xs) (hk : P.consts[kk]? = some (.int .int xs.length)) :
     Sim c P ctx (.array m xs) (cx ++ [li m.loc .push kk, li m.loc .array]) := by
-  intro k st scs σ res σ' hcode hsc hev
-  have hev0 := hev
+  intro k st scs σ res σ' hcode hsc hev hB
   rw [eval_array] at hev
+  rw [evalLoc_array] at hB
   rcases SM.bind_cases hev with ⟨e, hae, rfl⟩ | ⟨vs, σ1, hav, hrest⟩
-  · exact hxs k st scs σ _ _ hcode.left hsc hae
-  · refine Reach.runs (hxs k st scs σ _ _ hcode.left hsc hav) ?_
+  · exact hxs k st scs σ _ _ hcode.left hsc hae hB.left
+  · refine Reach.runs (hxs k st scs σ _ _ hcode.left hsc hav hB.left) ?_
+    have hb := (hB.right (evalListLoc_of_ok hav)).raised hrest
     have hlen := evalList_length _ xs hnp _ _ _ hav
     replace hrest : ((do SM.allocAfter c.budget vs.length vs.length
                          pure (.arr .iface vs)) : SM Val) σ1 = (res, σ') := hrest
@@ -193,24 +200,24 @@ theorem sim_array {m : Meta} {xs : List Node} {cx : List LInstr} {kk : Nat}
     rw [← hlen] at hk
     have hc := hcode.right
     refine Runs.push hc hk ?_
-    exact (Runs.array hc.tail3 (hbl.of hev0)).to_ip (by ip_arith)
+    exact (Runs.array hc.tail3 hb).to_ip (by ip_arith)
 
 theorem sim_map {m : Meta} {ps : List Node} {cx : List LInstr} {kk : Nat}
-    (hps : SimL c P ctx ps cx) (hap : AllPairs ps) (hk : P.consts[kk]? = some (.int .int ps.length))
-    (hbl : BlameOK c P (.map m ps)) :
+    (hps : SimL c P ctx ps cx) (hap : AllPairs ps) (hk : P.consts[kk]? = some (.int .int ps.length)) :
     Sim c P ctx (.map m ps) (cx ++ [li m.loc .push kk, li m.loc .map]) := by
-  intro k st scs σ res σ' hcode hsc hev
-  have hev0 := hev
+  intro k st scs σ res σ' hcode hsc hev hB
   rw [eval_map] at hev
+  rw [evalLoc_map] at hB
   rcases SM.bind_cases hev with ⟨e, hae, rfl⟩ | ⟨flat, σ1, hav, hrest⟩
-  · exact hps k st scs σ _ _ hcode.left hsc hae
-  · refine Reach.runs (hps k st scs σ _ _ hcode.left hsc hav) ?_
+  · exact hps k st scs σ _ _ hcode.left hsc hae hB.left
+  · refine Reach.runs (hps k st scs σ _ _ hcode.left hsc hav hB.left) ?_
+    have hb := (hB.right (evalListLoc_of_ok hav)).raised hrest
     have hlen := evalList_length_pairs _ ps hap _ _ _ hav
     have hc := hcode.right
     refine Runs.push hc hk ?_
     rw [SM.bind_apply, SM.lift_apply] at hrest
     have hb1 : RBlame P m.loc (buildMap flat) := by
-      intro e he; rw [he] at hrest; obtain ⟨rfl, rfl⟩ := Prod.mk.inj hrest; exact hbl _ _ _ _ hev0
+      intro e he; rw [he] at hrest; obtain ⟨rfl, rfl⟩ := Prod.mk.inj hrest; exact hb _ rfl
     have hb2 : ∀ mp, buildMap flat = .ok mp → (allocd σ1 ps.length ps.length).memory ≥ c.budget →
         P.blame .budget m.loc := by
       intro mp hmp hge
@@ -219,7 +226,7 @@ theorem sim_map {m : Meta} {ps : List Node} {cx : List LInstr} {kk : Nat}
                            pure (.map mp)) : SM Val) σ1 = (res, σ') := hrest
       rw [alloc_tail, if_pos hge] at hrest
       obtain ⟨rfl, rfl⟩ := Prod.mk.inj hrest
-      exact hbl _ _ _ _ hev0
+      exact hb _ rfl
     have hm := Runs.map (c := c) (st := st) (scs := scs) (σ := σ1) (lim := c.budget) hc.tail3 hlen hb1 hb2
     cases hb : buildMap flat with
     | error e =>
